@@ -406,6 +406,19 @@ def _run_check(prop, tier, seed, replay, cfg, t_start, log, rundir):
         P = {'ok': False, 'problems': ['setup failed: ' + '\n'.join(errl[-12:])], 'obligations': 0, 'discharged': 0, 'theorems': [], 'axioms': [], 'checker_cmd': ''}
     else:
         P = checklib.proof_leg(prop, log)
+        # translator tie for the generated parser: grammar.go must be goyacc(grammar.y)
+        import yacccheck
+        yok, ydetail = yacccheck.check(repo(), prop)
+        P['obligations'] = P.get('obligations', 0) + 1
+        log.append('yacc: ' + ydetail)
+        if yok:
+            if P['ok']:
+                P['discharged'] = P.get('discharged', 0) + 1
+        else:
+            P['ok'] = False
+            P['discharged'] = 0
+            P['problems'].append(ydetail)
+        P['checker_cmd'] = P.get('checker_cmd', '') + ' && build/goyacc -o grammar.go -p path grammar.y && diff (ignoring //line) with path/parser/grammar.go'
     log.append('proof leg: ok=%s obligations=%d discharged=%d %.1fs' % (P['ok'], P.get('obligations', 0), P.get('discharged', 0), time.time() - t_start))
 
     # ---------------- build, T leg, S leg
